@@ -14,58 +14,75 @@ use std::time::{Duration, Instant};
 
 static ADDR: AtomicU64 = AtomicU64::new(0);
 
-/// Broker side of the in-memory pipe: CONNACK, then an endless flood of QoS 0 publishes; every PINGREQ
-/// read from the client is answered and its arrival time recorded.
-async fn flood_broker(mut pipe: tokio::io::DuplexStream, v5: bool, pings: Arc<Mutex<Vec<Duration>>>, frames: Arc<AtomicU64>) {
-    use tokio::io::{AsyncReadExt, AsyncWriteExt};
-    let start = Instant::now();
-    let mut inbuf = vec![0u8; 4096];
-    // wait for the CONNECT
-    if pipe.read(&mut inbuf).await.unwrap_or(0) == 0 {
-        return;
-    }
-    let connack: &[u8] = if v5 { &[0x20, 0x03, 0x00, 0x00, 0x00] } else { &[0x20, 0x02, 0x00, 0x00] };
-    if pipe.write_all(connack).await.is_err() {
-        return;
-    }
-    let frame: &[u8] = if v5 { &[0x30, 0x05, 0x00, 0x01, b't', 0x00, b'x'] } else { &[0x30, 0x04, 0x00, 0x01, b't', b'x'] };
-    let chunk: Vec<u8> = frame.iter().copied().cycle().take(frame.len() * 256).collect();
-    let (mut rd, mut wr) = tokio::io::split(pipe);
-    let owed = Arc::new(AtomicU64::new(0));
-    let owed_r = owed.clone();
-    // reader: every PINGREQ (C0 00) is recorded and owed a PINGRESP
-    tokio::spawn(async move {
-        loop {
-            let n = match rd.read(&mut inbuf).await {
-                Ok(0) | Err(_) => return,
-                Ok(n) => n,
-            };
-            let mut i = 0;
-            while i + 1 < n {
-                if inbuf[i] == 0xC0 && inbuf[i + 1] == 0x00 {
-                    pings.lock().unwrap().push(start.elapsed());
-                    owed_r.fetch_add(1, Ordering::SeqCst);
+/// A transport that is *always* readable: the read side yields CONNACK, then whole QoS 0 publishes for
+/// ever (PINGRESPs in between, on frame boundaries); the write side records every PINGREQ. It never
+/// returns Pending, so something is ready at every entry of the event loop's select.
+struct Flood {
+    v5: bool,
+    connack_sent: bool,
+    owed: u64,
+    pings: Arc<Mutex<Vec<Duration>>>,
+    start: Instant,
+    frames: Arc<AtomicU64>,
+    pos: usize,
+}
+
+impl tokio::io::AsyncRead for Flood {
+    fn poll_read(mut self: std::pin::Pin<&mut Self>, _cx: &mut std::task::Context<'_>, buf: &mut tokio::io::ReadBuf<'_>) -> std::task::Poll<std::io::Result<()>> {
+        if !self.connack_sent {
+            self.connack_sent = true;
+            buf.put_slice(if self.v5 { &[0x20, 0x03, 0x00, 0x00, 0x00] } else { &[0x20, 0x02, 0x00, 0x00] });
+            return std::task::Poll::Ready(Ok(()));
+        }
+        while self.pos == 0 && self.owed > 0 && buf.remaining() >= 2 {
+            self.owed -= 1;
+            buf.put_slice(&[0xD0, 0x00]);
+        }
+        let frame: &[u8] = if self.v5 { &[0x30, 0x05, 0x00, 0x01, b't', 0x00, b'x'] } else { &[0x30, 0x04, 0x00, 0x01, b't', b'x'] };
+        let mut written = 0;
+        while buf.remaining() > 0 && written < 256 {
+            let take = (frame.len() - self.pos).min(buf.remaining());
+            let pos = self.pos;
+            buf.put_slice(&frame[pos..pos + take]);
+            self.pos = (pos + take) % frame.len();
+            written += take;
+            if self.pos == 0 {
+                self.frames.fetch_add(1, Ordering::Relaxed);
+                if self.owed > 0 {
+                    break;
                 }
-                i += 2;
             }
         }
-    });
-    // writer: whole chunks of publishes, PINGRESPs in between (always on a frame boundary)
-    loop {
-        while owed.load(Ordering::SeqCst) > 0 {
-            owed.fetch_sub(1, Ordering::SeqCst);
-            if wr.write_all(&[0xD0, 0x00]).await.is_err() {
-                return;
-            }
-        }
-        if wr.write_all(&chunk).await.is_err() {
-            return;
-        }
-        frames.fetch_add(256, Ordering::Relaxed);
+        std::task::Poll::Ready(Ok(()))
     }
 }
 
-fn one(v5: bool, stats: &mut Stats) -> Option<Record> {
+impl tokio::io::AsyncWrite for Flood {
+    fn poll_write(mut self: std::pin::Pin<&mut Self>, _cx: &mut std::task::Context<'_>, data: &[u8]) -> std::task::Poll<std::io::Result<usize>> {
+        let mut i = 0;
+        while i + 1 < data.len() {
+            if data[i] == 0xC0 && data[i + 1] == 0x00 {
+                self.owed += 1;
+                let at = self.start.elapsed();
+                self.pings.lock().unwrap().push(at);
+                i += 2;
+            } else if data[i] >> 4 == 1 {
+                i += 2 + data[i + 1] as usize; // the CONNECT frame (remaining length < 128 here)
+            } else {
+                i += 1;
+            }
+        }
+        std::task::Poll::Ready(Ok(data.len()))
+    }
+    fn poll_flush(self: std::pin::Pin<&mut Self>, _cx: &mut std::task::Context<'_>) -> std::task::Poll<std::io::Result<()>> {
+        std::task::Poll::Ready(Ok(()))
+    }
+    fn poll_shutdown(self: std::pin::Pin<&mut Self>, _cx: &mut std::task::Context<'_>) -> std::task::Poll<std::io::Result<()>> {
+        std::task::Poll::Ready(Ok(()))
+    }
+}
+
+fn one(v5: bool, long: bool, stats: &mut Stats) -> Option<Record> {
     let addr = format!("verif-c18rt-{}", ADDR.fetch_add(1, Ordering::SeqCst));
     let pings = Arc::new(Mutex::new(vec![]));
     let frames = Arc::new(AtomicU64::new(0));
@@ -73,9 +90,15 @@ fn one(v5: bool, stats: &mut Stats) -> Option<Record> {
     let connector: rumqttc::verif::Connector = Arc::new(move || {
         let (p, f) = (p2.clone(), f2.clone());
         Box::pin(async move {
-            let (client, broker) = tokio::io::duplex(16 * 1024);
-            tokio::spawn(flood_broker(broker, v5, p, f));
-            let s: rumqttc::verif::Stream = Box::new(client);
+            let s: rumqttc::verif::Stream = Box::new(Flood {
+                v5,
+                connack_sent: false,
+                owed: 0,
+                pings: p,
+                start: Instant::now(),
+                frames: f,
+                pos: 0,
+            });
             Ok(s)
         })
     });
@@ -91,9 +114,14 @@ fn one(v5: bool, stats: &mut Stats) -> Option<Record> {
             o.set_keep_alive(Duration::from_secs(5)); // the v5 options reject < 5 s; the server keep alive lowers it
             let _ = &mut o;
             let (_c, mut el) = rumqttc::v5::AsyncClient::new(o, 10);
-            // v5 cannot be configured below 5 s: observe for one interval more than 5 s would take too long,
-            // so the v5 run only checks that polling the flood neither errors nor stalls
-            while t0.elapsed() < Duration::from_millis(1500) {
+            // v5 cannot be configured below 5 s: the quick tier only checks that polling the flood neither
+            // errors nor stalls, the thorough tier observes 6.5 s (one PINGREQ is due)
+            let mut n = 0u64;
+            while t0.elapsed() < Duration::from_millis(if long { 6500 } else { 1500 }) {
+                n += 1;
+                if n % 64 == 0 {
+                    tokio::task::yield_now().await;
+                }
                 match tokio::time::timeout(Duration::from_millis(500), el.poll()).await {
                     Ok(Ok(_)) => events += 1,
                     Ok(Err(e)) => {
@@ -107,7 +135,13 @@ fn one(v5: bool, stats: &mut Stats) -> Option<Record> {
             let mut o = rumqttc::MqttOptions::new("verif", &addr, 1883);
             o.set_keep_alive(Duration::from_secs(1));
             let (_c, mut el) = rumqttc::AsyncClient::new(o, 10);
+            let mut n = 0u64;
             while t0.elapsed() < observe {
+                n += 1;
+                if n % 64 == 0 {
+                    // the harness (not the client) hands control back to the runtime so that it turns its timer wheel
+                    tokio::task::yield_now().await;
+                }
                 match tokio::time::timeout(Duration::from_millis(500), el.poll()).await {
                     Ok(Ok(ev)) => {
                         if matches!(ev, rumqttc::Event::Outgoing(rumqttc::Outgoing::PingReq)) {
@@ -145,10 +179,18 @@ fn one(v5: bool, stats: &mut Stats) -> Option<Record> {
                 .fact("version", if v5 { "v5" } else { "v4" }),
         );
     }
-    if !v5 && pings.is_empty() && events > 1000 {
+    if (!v5 || long) && pings.is_empty() && events > 1000 {
         return Some(
-            Record::new("C18", "no-ping-under-saturation", format!("keep-alive 1 s, {events} incoming publishes surfaced in 4 s of saturated inbound traffic, but not a single PINGREQ was sent (3 were due)"))
-                .fact("version", "v4"),
+            Record::new(
+                "C18",
+                "no-ping-under-saturation",
+                format!(
+                    "keep-alive {} s, {events} incoming publishes surfaced in {} s of saturated inbound traffic, but not a single PINGREQ was sent",
+                    if v5 { 5 } else { 1 },
+                    if v5 { 6.5 } else { 4.0 }
+                ),
+            )
+            .fact("version", if v5 { "v5" } else { "v4" }),
         );
     }
     None
@@ -156,7 +198,7 @@ fn one(v5: bool, stats: &mut Stats) -> Option<Record> {
 
 pub fn run(ctx: &Ctx, stats: &mut Stats) {
     for v5 in [false, true] {
-        if let Some(rec) = one(v5, stats) {
+        if let Some(rec) = one(v5, !ctx.quick(), stats) {
             crate::common::judge(ctx, stats, rec, || json!({"substrate": "real-time flood", "version": if v5 {"v5"} else {"v4"}, "note": "real-time scenario: re-run the check to re-execute it"}));
         }
     }
